@@ -71,3 +71,42 @@ pub fn ntru_holds(f: &[i64], g: &[i64], cf: &[i64], cg: &[i64]) -> bool {
     let l = ntru_lhs(f, g, cf, cg);
     l[0] == super::Q as i128 && l[1..].iter().all(|&x| x == 0)
 }
+
+/// Modified Gram-Schmidt, row-oriented, parallel over the rows still to be reduced.
+/// Returns the orthogonalised rows and their squared norms.
+pub fn gram_schmidt_par(rows: &[Vec<f64>]) -> Gso {
+    use rayon::prelude::*;
+    let m = rows.len();
+    let mut v: Vec<Vec<f64>> = rows.to_vec();
+    let mut d = vec![0.0f64; m];
+    for i in 0..m {
+        let (head, tail) = v.split_at_mut(i + 1);
+        let vi = &head[i];
+        let di: f64 = vi.iter().map(|x| x * x).sum();
+        d[i] = di;
+        if di == 0.0 {
+            continue;
+        }
+        tail.par_iter_mut().for_each(|vk| {
+            let mut dot = 0.0;
+            for (a, b) in vk.iter().zip(vi.iter()) {
+                dot += a * b;
+            }
+            let c = dot / di;
+            if c != 0.0 {
+                for (a, b) in vk.iter_mut().zip(vi.iter()) {
+                    *a -= c * b;
+                }
+            }
+        });
+    }
+    Gso { d, bstar: v }
+}
+
+/// rows of the secret basis in the order the signing tree is built over:
+/// X^{brv(i)} * (g, -f) for i < n, then X^{brv(i)} * (G, -F)
+pub fn tower_rows(b0: &[Vec<i64>; 4]) -> Vec<Vec<f64>> {
+    let mut rows = rotations(&b0[0], &b0[1], true);
+    rows.extend(rotations(&b0[2], &b0[3], true));
+    rows
+}
